@@ -1,7 +1,10 @@
 //! Property registry
 pub mod c03;
 pub mod c05;
+pub mod c12;
 pub mod c16;
+pub mod c17;
+pub mod c20;
 pub mod golden;
 pub mod poswalk;
 
@@ -16,6 +19,9 @@ pub fn all() -> Vec<Box<dyn DynProp>> {
         Box::new(c03::C03),
         Box::new(c05::C05::new()),
         Box::new(c16::C16),
+        Box::new(c12::C12),
+        Box::new(c17::C17),
+        Box::new(c20::C20),
     ]
 }
 
